@@ -555,27 +555,29 @@ class BaseCurve(Intface_BaseCurve):
         if oldctrlpoints is None and oldweights is None:
             self.knotvector = newknotvector
             return
+        # Compute everything first: a failure must leave the curve untouched
+        newknotvector = KnotVector(newknotvector)
+        newweights, newctrlpoints = None, None
+        if oldweights is None:
+            newctrlpoints = np.dot(matrix, oldctrlpoints)
+        else:
+            newweights = np.dot(matrix, oldweights)
+            if oldctrlpoints is not None:
+                oldctrlpoints = list(oldctrlpoints)
+                for i, weight in enumerate(oldweights):
+                    oldctrlpoints[i] *= weight
+                newctrlpoints = []
+                for i, line in enumerate(matrix):
+                    newctrlpoints.append(0 * oldctrlpoints[0])
+                    for j, point in enumerate(oldctrlpoints):
+                        newpoint = line[j] * point
+                        newpoint /= newweights[i]
+                        newctrlpoints[i] += newpoint
         self.ctrlpoints = None
         self.weights = None
         self.knotvector = newknotvector
-        if oldweights is None:
-            self.ctrlpoints = np.dot(matrix, oldctrlpoints)
-            return
-        newweights = np.dot(matrix, oldweights)
         self.weights = newweights
-
-        if oldctrlpoints is not None:
-            oldctrlpoints = list(oldctrlpoints)
-            for i, weight in enumerate(oldweights):
-                oldctrlpoints[i] *= weight
-            newctrlpoints = []
-            for i, line in enumerate(matrix):
-                newctrlpoints.append(0 * oldctrlpoints[0])
-                for j, point in enumerate(oldctrlpoints):
-                    newpoint = line[j] * point
-                    newpoint /= self.weights[i]
-                    newctrlpoints[i] += newpoint
-            self.ctrlpoints = newctrlpoints
+        self.ctrlpoints = newctrlpoints
 
 
 class Curve(BaseCurve):
